@@ -793,6 +793,20 @@ class Engine:
                     st.frames[-1] = fr._replace(bi=tgt, si=0)
                     continue
                 excl = self.excluded(st, d)
+                # earlier equality tests on the same integer term (x == c decided false / true)
+                eqs = [(kt[3][2], kv) for (kt, kv) in st.known.items()
+                       if kt[0] == "bin" and kt[1] == "Eq" and kt[2] == d and is_const(kt[3]) and isinstance(kt[3][2], int)
+                       and not isinstance(kt[3][2], bool) and kv[0] == "is"]
+                if eqs and t.get("discr_ty") != "bool":
+                    yes = [c for (c, kv) in eqs if kv[1] == 1]
+                    if yes:
+                        tgt = t["otherwise"]
+                        for v, b in targets:
+                            if v == yes[0]:
+                                tgt = b
+                        st.frames[-1] = fr._replace(bi=tgt, si=0)
+                        continue
+                    excl = excl | frozenset(c for (c, kv) in eqs if kv[1] == 0)
                 site = blk.get("tspan")
                 forks = []
                 is_bool = t.get("discr_ty") == "bool"
